@@ -1017,6 +1017,75 @@ pub fn gen_hot(prop: &str, seed: u64) -> Plan {
     Plan { prop: prop.into(), family: "L-hot".into(), seed, cfg, sim, clients: vec![ops], chaos: vec![], finale: Finale::None, universe, tags: vec!["under_capacity".into(), "hot_key".into()] }
 }
 
+
+/// One very long run (C13/C15): more recorded lookups than 2^20 on an estimator sized beyond 2^20
+/// counters, so that the aging window - and anything else that only changes at that size - is
+/// crossed once.  A single run of this kind per batch.
+pub fn gen_mega(prop: &str, seed: u64) -> Plan {
+    let mut rng = Rng::new(seed ^ 0x3e6a);
+    let flavor = pick_flavor(&mut rng);
+    let mut cfg = roomy_cfg(&mut rng, flavor);
+    cfg.num_counters = *rng.pick(&[(1usize << 20) + 1, 1 << 21, 3 << 20]);
+    cfg.buffer_items = *rng.pick(&[512usize, 1024]);
+    cfg.metrics = true;
+    let mut sim = sim_plan(&mut rng, false);
+    sim.max_steps = 80_000_000;
+    sim.throttle = 64;
+    let universe: Vec<u64> = vec![rng.range(1, 50), 300 + rng.below(50), rng.range(1 << 33, 1 << 40), 7000 + rng.below(100)];
+    let mut ops: Vec<Op> = Vec::new();
+    for k in &universe {
+        ops.push(Op::Insert { k: *k, cost: 1, ttl_ns: 0, size: 1 });
+    }
+    ops.push(Op::Barrier);
+    // a few recorded lookups of the watched keys, then the long tail on one other key
+    for (i, k) in universe.iter().enumerate().take(3) {
+        ops.push(Op::GetMany { k: *k, n: 9 + i as u64 });
+    }
+    let filler = universe[3];
+    let total = (1u64 << 20) + rng.range(20_000, 200_000);
+    ops.push(Op::GetMany { k: filler, n: total });
+    // fill the stripe so that the last batch is flushed
+    ops.push(Op::GetMany { k: filler, n: cfg.buffer_items as u64 });
+    ops.push(Op::Barrier);
+    for k in &universe {
+        ops.push(Op::Get { k: *k, hold: 0 });
+    }
+    ops.push(Op::Barrier);
+    cfg.buffer_size = cfg.buffer_size.max(16);
+    Plan { prop: prop.into(), family: "L-mega".into(), seed, cfg, sim, clients: vec![ops], chaos: vec![], finale: Finale::None, universe, tags: vec!["under_capacity".into(), "mega".into()] }
+}
+
+
+/// clear() with a backlog (C11): items are queued without waiting, then the processor is stalled
+/// for a while of virtual time somewhere inside the clear's work (which starts by draining the
+/// buffer) - time that code under test may be measuring.
+pub fn gen_clear_backlog(prop: &str, seed: u64) -> Plan {
+    let mut rng = Rng::new(seed ^ 0xc1ea);
+    let flavor = pick_flavor(&mut rng);
+    let mut cfg = roomy_cfg(&mut rng, flavor);
+    cfg.metrics = true;
+    let mut sim = sim_plan(&mut rng, false);
+    // the processor is held back while the backlog builds up
+    sim.stalls.push(StallPlan { at_step: 1, task: "processor".into(), for_steps: 100_000, for_ns: 0 });
+    let n = rng.range(6, 40);
+    let universe: Vec<u64> = (0..n.min(12)).map(|i| 500 + i * 7).collect();
+    let mut ops: Vec<Op> = Vec::new();
+    for i in 0..n {
+        ops.push(Op::Insert { k: universe[(i % universe.len() as u64) as usize] + 1000 * (i / universe.len() as u64), cost: 1, ttl_ns: 0, size: 1 });
+    }
+    ops.push(Op::StallWorker { ns: rng.range(260, 3000) * MS, skip: rng.below(60) as u32 });
+    ops.push(Op::Clear);
+    ops.push(Op::Barrier);
+    let all: Vec<u64> = (0..n).map(|i| universe[(i % universe.len() as u64) as usize] + 1000 * (i / universe.len() as u64)).collect();
+    for k in &all {
+        ops.push(Op::Get { k: *k, hold: 0 });
+    }
+    ops.push(Op::Len);
+    ops.push(Op::Barrier);
+    cfg.buffer_size = cfg.buffer_size.max(n as usize + 16);
+    Plan { prop: prop.into(), family: "L-clear-backlog".into(), seed, cfg, sim, clients: vec![ops], chaos: vec![], finale: Finale::None, universe: all, tags: vec!["under_capacity".into(), "clear".into(), "vstall".into()] }
+}
+
 /// Scale family: one client inserts thousands of distinct keys (most with the same TTL), lets the
 /// TTLs pass and the cleanup run, then inspects the quiescent state.  Constants hidden in the
 /// implementation (per-tick limits, buffer sizes, shard counts) only show at this size.
@@ -1186,6 +1255,8 @@ fn gen_plan_inner(prop: &str, seed: u64, variant: u64) -> Plan {
     let prop = over.as_deref().unwrap_or(prop);
     match prop {
         "C03" | "C10" | "C20" if variant % 40 == 11 => gen_huge_ttl(prop, seed),
+        "C13" | "C15" if variant % 20_000 == 3 => gen_mega(prop, seed),
+        "C11" if variant % 11 == 5 => gen_clear_backlog(prop, seed),
         "C13" | "C15" if variant % 97 == 5 => gen_hot(prop, seed),
         // cancellation: futures of remove()/wait() dropped at their await point (full buffer,
         // stalled processor); every value must still leave through exactly one callback
